@@ -10,3 +10,4 @@ for c in "$@"; do
 done
 git -C /repo checkout -- .
 (cd /verif/harness && CARGO_NET_OFFLINE=true cargo build --offline 2>&1 | grep -E "^error" | head -3)
+(cd /repo && CARGO_NET_OFFLINE=true cargo build --offline 2>&1 | grep -E "^error" | head -3)
